@@ -27,6 +27,8 @@ pub struct Outcome {
     pub panic: String,
     pub canary: String,
     pub entropy_calls: u64,
+    pub mono_reads: u64,
+    pub clock_jumps: u64,
 }
 
 impl Outcome {
@@ -61,7 +63,7 @@ impl Outcome {
     /// complete form (file contents as hex) for crossing a process boundary
     fn to_full_json(&self) -> Value {
         let files: BTreeMap<String, String> = self.files.iter().map(|(k, v)| (k.clone(), v.iter().map(|b| format!("{:02x}", b)).collect::<String>())).collect();
-        json!({"status": self.status, "files": files, "diag": self.diag, "panic": self.panic, "canary": self.canary, "entropy_calls": self.entropy_calls})
+        json!({"status": self.status, "files": files, "diag": self.diag, "panic": self.panic, "canary": self.canary, "entropy_calls": self.entropy_calls, "mono_reads": self.mono_reads, "clock_jumps": self.clock_jumps})
     }
     fn from_full_json(v: &Value) -> Option<Outcome> {
         let mut files = BTreeMap::new();
@@ -77,6 +79,8 @@ impl Outcome {
             panic: v.get("panic")?.as_str()?.to_string(),
             canary: v.get("canary")?.as_str()?.to_string(),
             entropy_calls: v.get("entropy_calls")?.as_u64()?,
+            mono_reads: v.get("mono_reads").and_then(|x| x.as_u64()).unwrap_or(0),
+            clock_jumps: v.get("clock_jumps").and_then(|x| x.as_u64()).unwrap_or(0),
         })
     }
 }
@@ -229,6 +233,7 @@ pub fn run_build(project: &Project, faults: &[Fault], entropy_seed: u64, style: 
         }
         let canary: String = canary.into_iter().collect();
         let calls = entropy::calls();
+        let (mono_reads, clock_jumps) = (entropy::monotonic_reads(), entropy::clock_jumps());
         entropy::set_seed(None);
         Outcome {
             status,
@@ -237,6 +242,8 @@ pub fn run_build(project: &Project, faults: &[Fault], entropy_seed: u64, style: 
             panic,
             canary,
             entropy_calls: calls,
+            mono_reads,
+            clock_jumps,
         }
     });
     match res {
@@ -251,6 +258,8 @@ pub fn run_build(project: &Project, faults: &[Fault], entropy_seed: u64, style: 
                 .unwrap_or_default(),
             canary: String::new(),
             entropy_calls: 0,
+            mono_reads: 0,
+            clock_jumps: 0,
         },
     }
 }
@@ -322,7 +331,7 @@ pub fn classify(a: &Outcome, b: &Outcome) -> Option<(String, String, String)> {
         return Some((
             class.into(),
             format!("{}:{}", class, t.join("+")),
-            format!("diagnostic text differs between two simulated processes (hash keys, process id, time of day) ({})", class),
+            format!("diagnostic text differs between two simulated processes (hash keys, process id, time of day, monotonic clock with a jump) ({})", class),
         ));
     }
     if a.panic != b.panic {
@@ -625,6 +634,8 @@ fn replay(cli: &Cli, path: &Path) -> i32 {
 
 #[derive(Default)]
 struct Acc {
+    mono_reads: u64,
+    clock_jumps: u64,
     builds: u64,
     projects: u64,
     nontrivial: BTreeSet<u64>,
@@ -722,6 +733,8 @@ pub fn main(cli: &Cli) -> i32 {
                 *acc.status_counts.entry(o.status.clone()).or_insert(0) += 1;
                 h = rng::fnv64_extend(h, &o.digest().to_le_bytes());
                 acc.entropy_calls += o.entropy_calls;
+                acc.mono_reads += o.mono_reads;
+                acc.clock_jumps += o.clock_jumps;
                 if o.diag.contains("failed to create") {
                     acc.write_faults_fired += 1;
                 }
@@ -801,6 +814,8 @@ pub fn main(cli: &Cli) -> i32 {
             t.digests.extend(a.digests);
             t.samples.extend(a.samples);
             t.entropy_calls += a.entropy_calls;
+            t.mono_reads += a.mono_reads;
+            t.clock_jumps += a.clock_jumps;
             t.projects_with_write_faults += a.projects_with_write_faults;
             t.write_faults_fired += a.write_faults_fired;
         },
@@ -932,7 +947,7 @@ pub fn main(cli: &Cli) -> i32 {
     ev.set("interleaving_measure", json!("distinct iteration orders of an 8-element canary HashSet created under each simulated process's keys"));
     ev.set("result_kinds", json!(acc.status_counts));
     ev.set("project_kinds", json!(acc.kinds));
-    ev.set("fault_kinds_injected", json!({"hash_seed_change": acc.builds, "entropy_calls_served": acc.entropy_calls, "projects_with_output_write_faults (enospc/eacces on an output file, same plan for all seeds)": acc.projects_with_write_faults, "builds_that_failed_writing": acc.write_faults_fired}));
+    ev.set("fault_kinds_injected", json!({"hash_seed_change": acc.builds, "entropy_calls_served": acc.entropy_calls, "projects_with_output_write_faults (enospc/eacces on an output file, same plan for all seeds)": acc.projects_with_write_faults, "builds_that_failed_writing": acc.write_faults_fired, "monotonic_clock_reads_by_simulated_processes (one process in three has a 30 s jump planned at one of its first six reads)": acc.mono_reads, "clock_jumps_observed": acc.clock_jumps}));
     ev.set(
         "panics_under_all_seeds_not_judged_here",
         json!(acc.panics_all_seeds),
